@@ -29,10 +29,17 @@ def obligations(tier, ctx):
                 continue  # two data lines with the symbolic payload last: 120-150 s each, thorough tier only
             sp = [f"s{i}" for i in range(n)]
             cr = [f"c{i}" for i in range(n)]
-            params = [(x, "bool") for x in sp + cr] + [("p1", "str")]
-            pre = ["len(p1) <= 1", "chr(10) not in p1 and chr(13) not in p1"]
-            obs.append(Ob(name="sse_" + "_".join(kt), params=params, pre=pre,
-                          call=f"H.sse_grammar({kt!r}, [{', '.join(sp)}], [{', '.join(cr)}], p1)", backend="P", timeout=300,
+            if n <= 2 or "d1" not in kt:
+                params = [(x, "bool") for x in sp + cr] + [("p1", "str")]
+                pre = ["len(p1) <= 1", "chr(10) not in p1 and chr(13) not in p1"]
+                call = f"H.sse_grammar({kt!r}, [{', '.join(sp)}], [{', '.join(cr)}], p1)"
+            else:
+                # three lines with the variable payload: its tail comes from six classes by symbolic index (a fully
+                # symbolic character did not finish in 300 s for 43 of these tuples)
+                params = [(x, "bool") for x in sp + cr] + [("p", "int")]
+                pre = ["0 <= p <= 5"]
+                call = f"H.sse_grammar_sel({kt!r}, [{', '.join(sp)}], [{', '.join(cr)}], p)"
+            obs.append(Ob(name="sse_" + "_".join(kt), params=params, pre=pre, call=call, backend="P", timeout=400,
                           family="(a) SSE body grammar vs WHATWG reference"))
     if tier == "quick":
         # a few three-line streams in the quick tier too: state must not leak across the blank line that ends an event
